@@ -101,6 +101,12 @@ def make_children(kind, nk, rng):
         for l in ls:  # AverageLearner.loss(real=False) divides by zero while it holds no value but has pending seeds
             l.tell(0, rng.gauss(0, 1))
         return ls
+    if kind == "avg_tiny":
+        # children whose losses are not scale-normalised, fed tiny-scale data: losses of order 1e-13 that differ by factors
+        ls = [adaptive.AverageLearner(lambda s: s, atol=1.0, rtol=None) for _ in range(nk)]
+        for i, l in enumerate(ls):
+            l.tell(0, rng.gauss(0, 1) * 1e-13 * (1 + i))
+        return ls
     if kind == "l1d":
         ls = []
         for _ in range(nk):
@@ -116,6 +122,8 @@ def value_for(kind, i, p, rng):
         return rng.randrange(-9, 9)
     if kind == "avg":
         return rng.gauss(i, 1.0 + i)
+    if kind == "avg_tiny":
+        return rng.gauss(0, 1.0 + 2 * i) * 1e-13
     return math.sin(3 * p + i) * (1 + i)
 
 
@@ -149,7 +157,7 @@ def oracle_case(arg):
     seed, nops = arg
     warnings.simplefilter("ignore")
     rng = random.Random(seed)
-    kind = rng.choice(["seq", "avg", "l1d", "l1d"])
+    kind = rng.choice(["seq", "avg", "avg_tiny", "l1d", "l1d", "l1d"])
     nk = rng.choice([1, 2, 3, 4, 5])
     strat = rng.choice(STRATS)
     kids = make_children(kind, nk, rng)
